@@ -182,7 +182,7 @@ ensures
     PUSHK = 'final(self).kinds() =~= old(self).kinds().push(%s), final(self).nodes() =~= old(self).nodes().push(%s), final(self).include_errors == old(self).include_errors,'
     ef.impl('SemanticErrorList', [
         ('new', dict(ret='r', props=['C07', 'C12'], spec='ensures r.kinds() =~= Seq::<SemanticErrorKind>::empty(), r.list@.len() == 0, r.include_errors@.len() == 0,')),
-        ('push_included', dict(props=['C07'], spec='ensures final(self).list == old(self).list, final(self).include_errors@ == old(self).include_errors@.push(new_errors),')),
+        ('push_included', dict(props=['C07', 'C13', 'C08', 'C12'], spec='ensures final(self).list == old(self).list, final(self).include_errors@ == old(self).include_errors@.push(new_errors),')),
         ('insert_error', dict(props=['C07', 'C12'], spec='ensures ' + PUSHK % ('error.error_kind', 'error.node'))),
         ('insert_syntax_node', dict(props=['C07', 'C12'], spec='ensures ' + PUSHK % ('error_kind', 'node'))),
         # exactly one diagnostic of that kind is appended, attached to the syntax node of the AST node given
